@@ -707,6 +707,15 @@ func (e *SpecEnv) evalCall(n *ast.CallExpr) Val {
 			specFail("sameArray: two slices expected")
 		}
 		return Val{t: b.Eq(w.sbase(x.t), w.sbase(y.t)), typ: boolT}
+	case "suffixOf":
+		// suffixOf(a, b): a is what remains of b after cutting elements off its front (a == b[k:] for some k)
+		argn(2)
+		x, y := e.eval(n.Args[0]), e.eval(n.Args[1])
+		if x.t == nil || y.t == nil || x.t.sort != SSlice || y.t.sort != SSlice {
+			specFail("suffixOf: two slices expected")
+		}
+		return Val{t: b.And(b.Eq(w.sbase(x.t), w.sbase(y.t)), b.BVCmp("bvsge", w.soff(x.t), w.soff(y.t)), b.BVCmp("bvsle", w.slen(x.t), w.slen(y.t)),
+			b.Eq(b.BVOp("bvadd", w.soff(x.t), w.slen(x.t)), b.BVOp("bvadd", w.soff(y.t), w.slen(y.t)))), typ: boolT}
 	case "apart":
 		// apart(p, s): the object p points to is not a view laid over the backing array of the byte slice s
 		// (Go's type system guarantees it for every pointer that does not come from an unsafe cast)
@@ -846,13 +855,7 @@ func (e *SpecEnv) evalCall(n *ast.CallExpr) Val {
 		if !ok1 {
 			specFail("called(callee)")
 		}
-		if e.called == nil {
-			return Val{t: b.False(), typ: boolT}
-		}
-		if t, ok := e.called[cid.Name]; ok {
-			return Val{t: t, typ: boolT}
-		}
-		return Val{t: b.False(), typ: boolT}
+		return Val{t: calledTerm(b, e.called, cid.Name), typ: boolT}
 	case "pre":
 		argn(1)
 		if e.pre == nil {
